@@ -122,6 +122,7 @@ def run_check(pid, tier, seed=None, procs=None):
     cov = Counter()
     states, nontrivial_states, outcomes = set(), set(), set()
     transitions = 0
+    extra_states = 0
     by_sig = defaultdict(list)
     notes = {}
     for i, r in enumerate(results):
@@ -137,6 +138,7 @@ def run_check(pid, tier, seed=None, procs=None):
             if key not in notes:
                 notes[key] = (cases[i], r["note"])
         transitions += int(r.get("transitions", 1))
+        extra_states += max(0, int(r.get("n_states", 1)) - 1)
         for v in r.get("violations", []):
             by_sig[v["sig"]].append((i, v))
     for k, v in extra_cov.items():
@@ -174,7 +176,7 @@ def run_check(pid, tier, seed=None, procs=None):
     level = getattr(mod, "LEVEL", "model_checking")
     coverage = {
         "evaluations": len(cases),
-        "states": len(states),
+        "states": len(states) + extra_states,
         "transitions": transitions,
         "traces_validated_against_impl": transitions,
         "distinct_nontrivial": len(nontrivial_states),
@@ -206,7 +208,7 @@ def run_check(pid, tier, seed=None, procs=None):
     for key, (c, note) in notes.items():
         print(f"NOTE outcome={key} case={canon(c)[:1200]} note={str(note)[:1500]}")
     print(
-        f"property={pid} tier={tier} seed={seed} cases={len(cases)} states={len(states)} "
+        f"property={pid} tier={tier} seed={seed} cases={len(cases)} states={len(states) + extra_states} "
         f"transitions={transitions} nontrivial={len(nontrivial_states)} outcomes={len(outcomes)} "
         f"violations={n_unknown} known={sum(known_matched.values())} wall={evidence['wall_s']}s evidence={path}"
     )
